@@ -73,6 +73,37 @@ func sameSSAExpr(a, b ssa.Value, depth int) bool {
 	return false
 }
 
+// progCell: a coordinate cell of the fix-point, `m[k]` of a map or `s[i]` of a slice
+type progCell struct{ X, Index ssa.Value }
+
+func progCellRead(v ssa.Value) *progCell {
+	switch x := v.(type) {
+	case *ssa.Lookup:
+		if !x.CommaOk {
+			return &progCell{x.X, x.Index}
+		}
+	case *ssa.UnOp:
+		if x.Op == token.MUL {
+			if ia, ok := x.X.(*ssa.IndexAddr); ok {
+				return &progCell{ia.X, ia.Index}
+			}
+		}
+	}
+	return nil
+}
+
+func progCellWrite(in ssa.Instruction) (*progCell, ssa.Value) {
+	switch x := in.(type) {
+	case *ssa.MapUpdate:
+		return &progCell{x.Map, x.Key}, x.Value
+	case *ssa.Store:
+		if ia, ok := x.Addr.(*ssa.IndexAddr); ok {
+			return &progCell{ia.X, ia.Index}, x.Val
+		}
+	}
+	return nil, nil
+}
+
 func flattenSum(v ssa.Value, out *[]ssa.Value, depth int) {
 	if bo, ok := v.(*ssa.BinOp); ok && bo.Op == token.ADD && depth < 6 {
 		flattenSum(bo.X, out, depth+1)
@@ -175,14 +206,14 @@ func runProg1(m *Model, r *RuleResult) {
 					if !isBin || d.Branch != 0 {
 						continue
 					}
-					var old *ssa.Lookup
+					var old *progCell
 					var e0 ssa.Value
 					switch bo.Op {
 					case token.LSS:
-						old, _ = bo.X.(*ssa.Lookup)
+						old = progCellRead(bo.X)
 						e0 = bo.Y
 					case token.GTR:
-						old, _ = bo.Y.(*ssa.Lookup)
+						old = progCellRead(bo.Y)
 						e0 = bo.X
 					case token.LEQ, token.GEQ:
 						why = "the guard `" + bo.String() + "` is not strict: when both sides are equal the cell is rewritten with the same value and the recursion repeats for ever"
@@ -194,10 +225,11 @@ func runProg1(m *Model, r *RuleResult) {
 						continue
 					}
 					for _, in := range b.Instrs {
-						mu, isMU := in.(*ssa.MapUpdate)
-						if !isMU || !sameSSAExpr(mu.Map, old.X, 0) || !sameSSAExpr(mu.Key, old.Index, 0) {
+						wc, wval := progCellWrite(in)
+						if wc == nil || !sameSSAExpr(wc.X, old.X, 0) || !sameSSAExpr(wc.Index, old.Index, 0) {
 							continue
 						}
+						mu := struct{ Value ssa.Value }{wval}
 						var addends []ssa.Value
 						flattenSum(mu.Value, &addends, 0)
 						if sameSSAExpr(mu.Value, e0, 0) {
@@ -221,6 +253,9 @@ func runProg1(m *Model, r *RuleResult) {
 								}
 							case *ssa.UnOp:
 								if x.Op != token.MUL {
+									rest = false
+								}
+								if c := progCellRead(x); c != nil && sameSSAExpr(c.X, old.X, 0) {
 									rest = false
 								}
 							default:
@@ -386,7 +421,11 @@ func runWidth1(m *Model, r *RuleResult) {
 			continue
 		}
 		res := f.Signature.Results()
-		if res.Len() != 2 || namedKey(res.At(0).Type()) != igNode {
+		if res.Len() != 2 {
+			continue
+		}
+		// (root, width): the root as a node, or as its index in a dense numbering of the nodes
+		if rb, isBasic := res.At(0).Type().Underlying().(*types.Basic); namedKey(res.At(0).Type()) != igNode && !(isBasic && rb.Info()&types.IsInteger != 0) {
 			continue
 		}
 		if b, ok := res.At(1).Type().Underlying().(*types.Basic); !ok || b.Kind() != types.Float64 {
@@ -468,9 +507,9 @@ func runWidth1(m *Model, r *RuleResult) {
 						stored := false
 						if call.Referrers() != nil {
 							for _, r3 := range *call.Referrers() {
-								if mu, ok := r3.(*ssa.MapUpdate); ok && mu.Value == ssa.Value(call) {
+								if wc, wv := progCellWrite(r3); wc != nil && wv == ssa.Value(call) {
 									for _, a := range call.Call.Args {
-										if lk, ok := a.(*ssa.Lookup); ok && sameMapValue(lk.X, mu.Map) && sameSSAExpr(lk.Index, mu.Key, 0) {
+										if rc := progCellRead(a); rc != nil && (sameMapValue(rc.X, wc.X) || sameSSAExpr(rc.X, wc.X, 0)) && sameSSAExpr(rc.Index, wc.Index, 0) {
 											stored = true
 										}
 									}
